@@ -1673,7 +1673,9 @@ def r4_evaluated(L, repo, spec, W, pdus):
     is accepted by the corresponding definition with identical field values".  Witness messages (boundary header
     values, every modulation with every TSC set, GMSK and EDGE bursts, NOPE indications, legacy padding on/off) are
     generated by TxMsg/RxMsg.gen_msg() under the concrete evaluator and handed to the evaluated PDU class; the
-    decoded values must be the message's fields.  How gen_msg assembles the octets does not enter."""
+    decoded values must be the message's fields.  How gen_msg assembles the octets does not enter.  The definition gets
+    the datagram as produced - the object gen_msg() returned (a bytearray stays a mutable, unhashable buffer) - and the
+    same octets as bytes; a decode that hashes its input (functools.lru_cache, a dict keyed by the octets) rejects the former."""
     from rules import c16
     import array as _array
     R = "C17.R4"
